@@ -7,7 +7,7 @@
 From Coq Require Import ZArith QArith Qabs Qcanon List Lia Reals.
 From Coquelicot Require Import Coquelicot.
 From DV Require Import Base.Field Base.FieldFacts Base.LinAlg Base.QcInst Model.Sampler Model.SamplerQc Model.Flow Model.FlowHull Model.FlowQc
-  Gen.FlowAlg Proofs.C11Interp Proofs.C11Compose Proofs.C11Compose3 Proofs.C11Expv Proofs.C11Hull Proofs.C11Gen Base.RInst Proofs.C11Limit Proofs.C11LimitModel Proofs.C11LimitAffine Proofs.C11LimitDiagonalizable Proofs.C11LimitConj2 Proofs.C11LimitAnalysis Proofs.C11LimitForms2 Proofs.C11LimitClass2.
+  Gen.FlowAlg Proofs.C11Interp Proofs.C11Compose Proofs.C11Compose3 Proofs.C11Expv Proofs.C11Hull Proofs.C11Gen Base.RInst Proofs.C11Limit Proofs.C11LimitModel Proofs.C11LimitAffine Proofs.C11LimitDiagonalizable Proofs.C11LimitConj2 Proofs.C11LimitAnalysis Proofs.C11LimitForms2 Proofs.C11LimitClass2 Proofs.C11LimitBlock3.
 Import ListNotations.
 
 Section Statements.
@@ -301,6 +301,20 @@ Example C11_canonical_rotation_example :
 Proof. constructor. Qed.
 Print Assumptions C11_convergence_every_linear_generator_2d.
 Print Assumptions C11_canonical_exponentials_solve_ode.
+
+(* 7f. 3-D, block-diagonal generators G = [[a b 0] [c d 0] [0 0 z]] (ARBITRARY linear map in the x-y plane -- rotation, shear,
+       anisotropic scaling -- plus scaling along z): for every k the closed form is the block matrix of the 2-D closed form and
+       the scalar closed form, hence converges entrywise to blockdiag(exp [[a b] [c d]], e^z).
+       Still PARTIAL: 3-D generators coupling all three axes. *)
+Theorem C11_convergence_block_generator_3d :
+  forall a b c d z : R,
+  (forall k : nat, hpow (K:=RF) 3 (hone_plus (K:=RF) 3 (/ 2 ^ k) (B3 a b c d z)) (2 ^ k)
+     = B3m (hpow (K:=RF) 2 (hone_plus (K:=RF) 2 (/ 2 ^ k) (L2 a b c d)) (2 ^ k)) ((1 + z / 2 ^ k) ^ (2 ^ k))) /\
+  exists p q r s J EJ, p * s - q * r <> 0 /\ canonical J EJ /\ L2 a b c d = conj2m p q r s J /\
+  conv3 (fun k : nat => hpow (K:=RF) 3 (hone_plus (K:=RF) 3 (/ 2 ^ k) (B3 a b c d z)) (2 ^ k))
+        (B3m (conj2m p q r s EJ) (exp z)).
+Proof. intros a b c d z. split; [intro k; apply closed_form_block3 | apply every_block_generator_converges3]. Qed.
+Print Assumptions C11_convergence_block_generator_3d.
 Local Open Scope Q_scope.
 
 (* non-vacuity: a concrete generator on a 3 x 2 lattice (align_corners = false) that satisfies the hull predicate, is
